@@ -361,6 +361,14 @@ def commentEmit (stripComments : Bool) (text : Bytes) : Bytes :=
 def usageName (K : PpKinds) (inp : Input) (x : Tree) : Bytes :=
   (match (x.kids.drop 1).head? with | some name => identOf K inp name | none => none).getD []
 
+/-- the name an `UndefineCompilerDirective` node removes -/
+def undefName (K : PpKinds) (inp : Input) (x : Tree) : Bytes :=
+  (match x.kids with | _ :: _ :: name :: _ => identOf K inp name | _ => none).getD []
+
+/-- the name a `TextMacroDefinition` defines, read from its prototype (`TextMacroName`) -/
+def defineName (K : PpKinds) (inp : Input) (proto : Tree) : Bytes :=
+  (match proto.kids.head? with | some name => identOf K inp name | none => none).getD []
+
 structure Cfg where
   K : PpKinds
   g : Grammar
@@ -445,7 +453,7 @@ def armUndef (C : Cfg)
     Except PpError WState :=
   let K := C.K
   let bk := x.baseKind
-  let id := (match x.kids with | _ :: _ :: name :: _ => identOf K inp name | _ => none).getD []
+  let id := undefName K inp x
   .ok { (pushLoc inp path { w2 with defines := w2.defines.remove id } x) with skipWs := true }
 
 /-- one `Enter` arm of the event loop (see `enterStep`) -/
@@ -512,7 +520,7 @@ def armDefine (C : Cfg)
   let wA := { (w2.skipPush x) with skip := true }
   match x.kids with
   | _ :: _ :: proto :: rest =>
-    let id := (match proto.kids.head? with | some name => identOf K inp name | none => none).getD []
+    let id := defineName K inp proto
     let wB :=
       if !isPredefined id then
         let formals : List Tree :=
